@@ -100,7 +100,8 @@ def _maximal_unit():
                 def group(tt):
                     pairs = IterV(lambda uu: TupleV([item(ekey(tt)), item(ekey(oth(tt, uu)))]), n - 1, 'pairs')
                     return TupleV([item(ekey(tt)), pairs])
-                return IterV(group, n, 'groupby')
+                # permutations(s, 2) of fewer than two elements is EMPTY: no pair, hence no group (groupby yields one group per run of equal keys)
+                return IterV(group, If(n >= 2, n, 0), 'groupby')
 
             def starmap(p, args, kw):
                 f, it = args
@@ -156,7 +157,7 @@ def _maximal_unit():
                 path.oblige('post/filter-of-the-groups', 'post', BoolVal(ok))
                 if not ok:
                     return
-                path.oblige('post/one-group-per-element', 'post', R.base.length == n)
+                path.oblige('post/one-group-per-element', 'post', R.base.length == n)      # only reached with two or more elements
                 n0 = len(path.pc)
                 path.pc.append(And(0 <= tt, tt < n))
                 c = R.cond(tt)
